@@ -219,11 +219,11 @@ def replay(path):
     if kind == 'kani-harness':
         return P.replay_kani(j)
     if kind == 'bx-types':
-        exe, err = units.build_bx()
+        exe, err = units.build_bx('bx_types')
         if exe is None:
             print(err)
             return 2
-        rc, out, err, wall, to = units._sh([exe, 'types', '--depth', '3'], 600)
+        rc, out, err, wall, to = units._sh([exe, '--depth', '3'], 600)
         print('\n'.join(l for l in out.split('\n') if l.startswith('REPLAY')) or 'REPLAY: no clause violated on the current tree')
         return 1 if rc == 1 else (0 if rc == 0 else 2)
     if kind == 'bx-convert':
